@@ -23,7 +23,7 @@ def check(ctx, src):
     ctx.check(g is not None and norm(g.test) == "not from_parser", "CTOR-SYMBOL", f"{MO}|Symbol.__new__|guard", f"validation runs under `{norm(g.test) if g else None}`; it must run for every non-parser input", MO, s.lineno,
               witness="Symbol('NaN') succeeds although reading NaN gives a Float", detail="not from_parser")
     t = flat(g) if g is not None else ""
-    ctx.check(g is not None and pm.find(g, "sym = as_identifier(s)\nif not isinstance(sym, Symbol):\n    raise ValueError(___)") is not None, "CTOR-SYMBOL", f"{MO}|Symbol.__new__|via as_identifier", "Symbol must be validated by as_identifier and rejected unless that yields a Symbol", MO, s.lineno, detail="as_identifier(s) must be a Symbol")
+    ctx.check(g is not None and pm.find(g, "sym = as_identifier(s)\nif not isinstance(sym, Symbol):\n    raise ValueError(___)\nreturn sym") is not None, "CTOR-SYMBOL", f"{MO}|Symbol.__new__|via as_identifier", "Symbol must be validated by as_identifier and rejected unless that yields a Symbol", MO, s.lineno, detail="as_identifier(s) must be a Symbol")
     ctx.check("from hy.reader.hy_reader import as_identifier" in t, "CTOR-SYMBOL", f"{MO}|Symbol.__new__|same function", "the validator is not the reader's as_identifier", MO, s.lineno, detail="imported from hy.reader.hy_reader")
     k = mo.func("Keyword.__init__")
     ctx.require(k is not None, "Keyword.__init__ not found")
